@@ -77,6 +77,10 @@ type RunOutput struct {
 }
 
 func main() {
+	if len(os.Args) >= 2 && os.Args[1] == "instrument" {
+		instrumentMain(os.Args[2:])
+		return
+	}
 	if len(os.Args) < 2 || os.Args[1] != "run" {
 		fmt.Fprintln(os.Stderr, "usage: gosmt run [flags]")
 		os.Exit(2)
